@@ -293,6 +293,52 @@ def check_cond(ctx, exe, runner):
                 [None if v is None else round(float(v), 9) for v in out], [None if v is None else round(float(v), 9) for v in mo]),
                 {'case': sx_str(c), 'impl': sx_str(ii), 'model': sx_str(mi), 'correspondence': 'simulate_calcul vs KrigingSystem::_simulateCalcul'}, found_input=False)
 
+def check_copy(ctx, exe, runner):
+    """CalcSimuTurningBands::_updateData2ToTarget on point targets, with selections on both Dbs and undefined data"""
+    rng = ctx.rng; quick = ctx.quick()
+    cases = []
+    for r in range(60 if quick else 600):
+        nbsimu = rng.randint(1, 3); nvar = rng.choice([1, 1, 2]); icase = rng.choice([0, 0, 1]); nitem = nbsimu * nvar * (icase + 1)
+        nd = rng.randint(2, 8)
+        pts = rng.sample([(x, y) for x in range(6) for y in range(6)], nd)
+        mode = r % 3      # 0: no selection, 1: random masks, 2: first samples masked
+        data = []
+        for j, (x, y) in enumerate(pts):
+            a = 1 if mode == 0 else (0 if (mode == 2 and j < 2) else (0 if rng.random() < .3 else 1))
+            data.append([a, [dy(x), dy(y)], [dy(dyq(rng, -5, 5)) if rng.random() < .9 else [] for _ in range(nvar)]])
+        if not any(d[0] for d in data): data[-1][0] = 1
+        tg = [(Fraction(x), Fraction(y)) for x, y in pts] + [(Fraction(rng.randint(0, 10), 2) + Fraction(1, 4), Fraction(rng.randint(0, 10), 2)) for _ in range(3)]
+        rng.shuffle(tg)
+        tgs = [[0 if (mode and rng.random() < .2) else 1, [dy(x), dy(y)], [dy(dyq(rng, -9, 9)) for _ in range(nitem)]] for x, y in tg]
+        cases.append([9, nbsimu, nvar, icase, dy(Fraction(1, 2 ** 30)), data, tgs])
+    cf = write_cases(ctx, 'copy', cases); rc, impl = run_impl(ctx, exe, cf); model = model_run(ctx, runner, 'copy', cases)
+    for i, c in enumerate(cases):
+        ii = impl[i] if i < len(impl) else None; mi = model[i]
+        ctx.count('copy:' + sx_str(c)[:300]); ctx.dist('copy_selection_mode_%d' % (i % 3))
+        if ii is None or ii[0] != 0: crash(ctx, '_updateData2ToTarget', c); continue
+        out = [[undy(v) for v in r] for r in ii[1]]; mo = [[unq(v) for v in r] for r in mi[1]]
+        if out == mo: continue
+        nbsimu, nvar, icase = c[1], c[2], c[3]
+        # the property on impl: an active target on an active datum carries that datum's defined values
+        bad = None
+        for it, t in enumerate(c[6]):
+            if not t[0]: continue
+            on = [j for j, d in enumerate(c[5]) if d[0] and d[1] == t[1]]
+            if not on: continue
+            for isimu in range(nbsimu):
+                for ivar in range(nvar):
+                    z = undy(c[5][on[0]][2][ivar]); item = isimu + nbsimu * (ivar + nvar * icase)
+                    if z is not None and out[it][item] != z: bad = (it, on[0], isimu, ivar, out[it][item], z)
+        if bad:
+            others = [j for j, d in enumerate(c[5]) if any(undy(v) == bad[4] for v in d[2] if v != [])]
+            ctx.violation('_updateData2ToTarget:points:wrong-datum' + (':under-selection' if any(not d[0] for d in c[5]) else ''),
+                          'target %d coincides with active datum %d (absolute rank) but simulation %d variable %d receives %r instead of %r%s; data selection %s' % (
+                              bad[0], bad[1], bad[2], bad[3], None if bad[4] is None else float(bad[4]), float(bad[5]),
+                              ' = value of datum %s' % others if others else '', [d[0] for d in c[5]]), {'case': sx_str(c), 'impl': sx_str(ii), 'model': sx_str(mi)}); ctx.found_input = True
+        else:
+            ctx.violation('model-drift:_updateData2ToTarget', 'rows after the copy differ from the model although every active target on an active datum carries its value',
+                          {'case': sx_str(c), 'impl': sx_str(ii), 'model': sx_str(mi)}, found_input=False)
+
 # ============================================================================================ rule
 RULES = [['S', 'F1', 'F2'], ['T', 'F1', 'F2'], ['S', 'T', 'F1', 'F2', 'F3'], ['S', 'S', 'F1', 'F2', 'F3'], ['T', 'F1', 'S', 'F2', 'F3'],
          ['S', 'T', 'F1', 'F2', 'T', 'F3', 'F4'], ['S', 'F1', 'S', 'F2', 'S', 'F3', 'F4'], ['S', 'S', 'T', 'F1', 'F2', 'F3', 'T', 'F4', 'F5']]
@@ -412,6 +458,34 @@ def gen_sim_configs(ctx):
         tg = tg + [(Fraction(x), Fraction(y)) for x, y in on] + [(Fraction(rng.randint(0, nx)) + Fraction(1, 8), Fraction(rng.randint(0, ny)) + Fraction(3, 8))]
         cfgs.append(dict(sim=2, nbsimu=2, nbtuba=rng.choice([10, 30]), grid=[], model=mdl(rng.choice([0, 1, 3]), rng.randint(3, 8)), data=d, pts=pts,
                          targets=[[dy(x), dy(y)] for x, y in tg], tg=tg))
+        # masks: selection on the data (first sample masked in one case out of two), undefined data, selection on the targets
+        def masks(n, first):
+            m = [0 if rng.random() < .35 else 1 for _ in range(n)]
+            if first: m[0] = 0
+            if sum(m) < 2:
+                for j in rng.sample(range(1, n), 2): m[j] = 1
+            return m
+        for first in (True, False):
+            d, pts = data_on_grid(nx, ny, rng.randint(5, 10), lambda: [dy(dyq(rng, -3, 3))])
+            nd = len(d); dsel = masks(nd, first)
+            for j in range(1, nd):
+                if rng.random() < .15: d[j] = [d[j][0], d[j][1], []]            # undefined datum
+            tsel = [0 if rng.random() < .2 else 1 for _ in range(nx * ny)]
+            for j in (0, nx - 1, nx * (ny - 1), nx * ny - 1): tsel[j] = 1
+            cfgs.append(dict(sim=1, nbsimu=2, nbtuba=rng.choice([10, 30]), grid=grid_of(nx, ny), model=mdl(rng.choice([0, 1, 3]), rng.randint(3, 8)), data=d, pts=pts,
+                             dsel=dsel, tsel=tsel, masked=1))
+            # point targets: on every datum (active or not), plus targets off the data; corners of the box stay active
+            d, pts = data_on_grid(nx, ny, rng.randint(5, 9), lambda: [dy(dyq(rng, -3, 3))])
+            nd = len(d); dsel = masks(nd, first)
+            for j in range(1, nd):
+                if rng.random() < .15: d[j] = [d[j][0], d[j][1], []]
+            tg = [(Fraction(-1), Fraction(-1)), (Fraction(nx + 1), Fraction(ny + 1))]
+            tg += [(Fraction(x), Fraction(y)) for x, y in pts]
+            tg += [(Fraction(rng.randint(0, 2 * nx), 2) + Fraction(1, 4), Fraction(rng.randint(0, 2 * ny), 2) + Fraction(1, 4)) for _ in range(4)]
+            order = list(range(2, len(tg))); rng.shuffle(order); tg = tg[:2] + [tg[k] for k in order]
+            tsel = [1, 1] + [0 if rng.random() < .2 else 1 for _ in range(len(tg) - 2)]
+            cfgs.append(dict(sim=2, nbsimu=2, nbtuba=rng.choice([10, 30]), grid=[], model=mdl(rng.choice([0, 1, 3]), rng.randint(3, 8)), data=d, pts=pts,
+                             targets=[[dy(x), dy(y)] for x, y in tg], tg=tg, dsel=dsel, tsel=tsel, masked=1))
         # 3 simfft (one simulation: see finding simfft:nbsimu) and with several
         cfgs.append(dict(sim=3, nbsimu=1, nbtuba=0, grid=grid_of(rng.choice([8, 12, 16]), rng.choice([8, 10])), model=mdl(rng.choice([0, 1, 3]), rng.randint(2, 5))))
         cfgs.append(dict(sim=3, nbsimu=2, nbtuba=0, grid=grid_of(8, 8), model=mdl(0, 3)))
@@ -443,6 +517,20 @@ def gen_sim_configs(ctx):
                 c = dict(sim=simk, nbsimu=nbs, nbtuba=nbt, grid=grid_of(nx, ny), model=m1, extra=ex, nfac=nfac, ngrf=2 if 'T' in names else 1)
                 if simk == 8: c['data'] = d; c['pts'] = pts
                 cfgs.append(c)
+        for names, nbs in [(RULES[3], 2), (RULES[2], 1)]:
+            nfac = sum(1 for n in names if n.startswith('F')); props = gen_props(rng, nfac, allow_zero=False)
+            d, pts = data_on_grid(nx, ny, rng.randint(4, 8), lambda: [dy(rng.randint(1, nfac))])
+            dsel = [0] + [0 if rng.random() < .3 else 1 for _ in range(len(d) - 1)]
+            if sum(dsel) < 2: dsel[-1] = dsel[-2] = 1
+            tsel = [0 if rng.random() < .15 else 1 for _ in range(nx * ny)]
+            m1 = mdl(rng.choice([0, 1]), rng.randint(3, 6)); m2 = mdl(rng.choice([0, 1]), rng.randint(3, 6))
+            for flag_gaus in (0, 1):
+                cfgs.append(dict(sim=8, nbsimu=nbs, nbtuba=10, grid=grid_of(nx, ny), model=m1, extra=[[S(n) for n in names], [dy(p) for p in props], m2, flag_gaus, 5, 10],
+                                 nfac=nfac, ngrf=2 if 'T' in names else 1, data=d, pts=pts, dsel=dsel, tsel=tsel, masked=1))
+        # gibbs_sampler with a selection
+        k = rng.randint(4, 8)
+        d, pts = data_on_grid(10, 10, k, lambda: [dy(Fraction(-1, 2)), dy(Fraction(3, 4))])
+        cfgs.append(dict(sim=6, nbsimu=2, nbtuba=0, grid=[], model=mdl(1, 5), data=d, pts=pts, extra=[5, 10, 0, 0], dsel=[0] + [1] * (k - 2) + [0], masked=1))
         # 9 simbipgs
         props = gen_props(rng, 6, allow_zero=False)
         cfgs.append(dict(sim=9, nbsimu=2, nbtuba=10, grid=grid_of(6, 5), model=mdl(0, 4),
@@ -455,7 +543,24 @@ def gen_sim_configs(ctx):
     return cfgs
 
 def sim_case(cfg, seed, prelude):
-    return [50, cfg['sim'], seed, cfg['nbsimu'], cfg['nbtuba'], cfg['grid'], cfg['model'], prelude, cfg.get('data', []), cfg.get('targets', []), cfg.get('extra', []), cfg.get('oldstyle', 1)]
+    c = [50, cfg['sim'], seed, cfg['nbsimu'], cfg['nbtuba'], cfg['grid'], cfg['model'], prelude, cfg.get('data', []), cfg.get('targets', []), cfg.get('extra', []), cfg.get('oldstyle', 1)]
+    if cfg.get('dsel') or cfg.get('tsel'): c.append([cfg.get('dsel') or [], cfg.get('tsel') or []])
+    return c
+
+def removed_cfg(cfg):
+    """the same configuration after physically removing the masked / undefined data (and, for point outputs, the masked targets)"""
+    d = dict(cfg)
+    keep = data_active(cfg)
+    d['data'] = [x for x, k in zip(cfg['data'], keep) if k]; d['pts'] = [x for x, k in zip(cfg['pts'], keep) if k]; d['dsel'] = []
+    if cfg['sim'] == 2 and cfg.get('tsel'):
+        d['targets'] = [t for t, k in zip(cfg['targets'], cfg['tsel']) if k]; d['tg'] = [t for t, k in zip(cfg['tg'], cfg['tsel']) if k]; d['tsel'] = []
+    return d
+
+def data_active(cfg):
+    """active and defined data (selection flag set, first value defined)"""
+    ds = cfg.get('dsel') or [1] * len(cfg['data'])
+    return [bool(f) and d[2] != [] for f, d in zip(ds, cfg['data'])]
+
 
 def cols(res): return [[undy(v) for v in col] for col in res[2]]
 
@@ -468,6 +573,7 @@ def check_sims(ctx, exe, runner):
         runs.append((k, 'A', sim_case(cfg, s1, [-3])))
         runs.append((k, 'B', sim_case(cfg, s1, [rng.randint(1, 99999), -rng.randint(5, 40)])))   # same seed, other history
         runs.append((k, 'C', sim_case(cfg, s2, [-3])))                                           # other seed
+        if cfg.get('masked'): runs.append((k, 'D', sim_case(removed_cfg(cfg), s1, [-3])))           # masked / undefined data physically removed
     cf = write_cases(ctx, 'sims', [r[2] for r in runs])
     rc, impl = run_impl(ctx, exe, cf, timeout=1500)
     res = {}
@@ -491,6 +597,7 @@ def check_sims(ctx, exe, runner):
         a, b, cc = cols(A), cols(B), cols(C)
         # --- seed discipline: trace language
         for tag, c, r in (('A', cA, A), ('B', cB, B)):
+            if (k, tag) not in tdec: continue
             ok, strict, derived = tdec[(k, tag)]
             good = {'strict': strict, 'derived': derived}[LANG[sim]] and ok
             if not good:
@@ -506,7 +613,9 @@ def check_sims(ctx, exe, runner):
             ctx.violation('not-reproducible:%s' % name, '%s: two runs with seed %d differ bit-wise (second run made after an unrelated use of the generator)' % (name, cA[2]),
                           {'case_1': sx_str(cA), 'case_2': sx_str(cB)}); ctx.found_input = True
         # --- non finite output
-        if any(v is None for col in a for v in col):
+        if sim == 6: omask = cfg.get('dsel')
+        else: omask = cfg.get('tsel')
+        if any(v is None and (not omask or omask[j]) for col in a for j, v in enumerate(col)):
             ctx.violation('undefined-output:%s' % name, '%s wrote undefined / non finite values with seed %d' % (name, cA[2]), {'case': sx_str(cA)}); ctx.found_input = True; continue
         # --- number of realisations, ranks differ, seeds differ
         nreal = {0: 1, 1: 1, 2: 1, 3: 1, 4: 1, 5: 1, 6: 1, 9: 1}.get(sim)
@@ -524,61 +633,107 @@ def check_sims(ctx, exe, runner):
                         ctx.violation('ranks-identical:%s' % name, '%s: realisations %d and %d of the same call are identical' % (name, i1, i2), {'case': sx_str(cA)}); ctx.found_input = True
         if sim != 10 and a == cc and len(a) > 0:
             ctx.violation('seeds-identical:%s' % name, '%s: seeds %d and %d give identical outputs' % (name, cA[2], cC[2]), {'case_1': sx_str(cA), 'case_2': sx_str(cC)}); ctx.found_input = True
-        # --- conditioning
-        if sim == 1:
-            nx = cfg['grid'][0]
-            zs = [undy(d[2]) for d in cfg['data']]; scale = 1 + max(abs(z) for z in zs)
-            for (x, y), z in zip(cfg['pts'], zs):
-                for isimu, col in enumerate(a):
-                    v = col[y * nx + x]
-                    if abs(v - z) > Fraction(1, 10 ** 8) * scale:
-                        ctx.violation('simtub:datum-not-honoured:grid', 'conditional simulation %d at the grid node of datum (%d,%d): %r instead of %r' % (isimu, x, y, float(v), float(z)),
-                                      {'case': sx_str(cA), 'node': [x, y]}); ctx.found_input = True
-        if sim == 2:
-            zs = [undy(d[2]) for d in cfg['data']]; scale = 1 + max(abs(z) for z in zs); nd = len(zs)
-            loc = {(Fraction(x), Fraction(y)): z for (x, y), z in zip(cfg['pts'], zs)}
-            for it, (tx, ty) in enumerate(cfg['tg']):
+        # --- conditioning, under arbitrary selections on data and targets and with undefined data
+        masked = ':under-selection' if cfg.get('masked') else ''
+        if sim in (1, 2, 8) :
+            act = data_active(cfg)
+            if sim == 2:
+                tloc = cfg['tg']; tact = cfg.get('tsel') or [1] * len(tloc)
+            else:
+                nx, ny = cfg['grid'][0], cfg['grid'][1]
+                tloc = [(Fraction(x), Fraction(y)) for y in range(ny) for x in range(nx)]; tact = cfg.get('tsel') or [1] * (nx * ny)
+            where = {}
+            for j, (x, y) in enumerate(cfg['pts']): where.setdefault((Fraction(x), Fraction(y)), []).append(j)
+        if sim in (1, 2):
+            zs = [undy(d[2]) for d in cfg['data']]; scale = 1 + max(abs(z) for z in zs if z is not None)
+            tol = Fraction(1, 10 ** 8) * scale
+            kind = 'grid' if sim == 1 else 'points'
+            for it, loc in enumerate(tloc):
+                if not tact[it]: continue
                 vals = [col[it] for col in a]
-                if (tx, ty) in loc:
+                js = where.get(loc, [])
+                on = [j for j in js if act[j]]
+                if on:
+                    z = zs[on[0]]
                     for isimu, v in enumerate(vals):
-                        if abs(v - loc[(tx, ty)]) > Fraction(1, 10 ** 8) * scale:
-                            ctx.violation('simtub:datum-not-honoured:points', 'conditional simulation %d at target %d coinciding with a datum: %r instead of %r' % (
-                                isimu, it, float(v), float(loc[(tx, ty)])), {'case': sx_str(cA), 'target': it}); ctx.found_input = True
+                        if v is None or abs(v - z) > tol:
+                            other = [j for j in range(len(zs)) if zs[j] is not None and v is not None and abs(v - zs[j]) <= tol]
+                            ctx.violation('simtub:datum-not-honoured:%s%s' % (kind, masked),
+                                          'conditional simulation %d at active target %d = (%s,%s) coinciding with active datum %d: %r instead of %r%s (data selection %s)' % (
+                                              isimu, it, float(loc[0]), float(loc[1]), on[0], None if v is None else float(v), float(z),
+                                              ' - this is the value of datum %s' % other if other else '', cfg.get('dsel')),
+                                          {'case': sx_str(cA), 'target': it, 'datum': on[0]}); ctx.found_input = True; break
                 else:
-                    if len(vals) >= 2 and len(set(vals)) == 1 and it < nd and vals[0] == zs[it]:
-                        ctx.violation('simtub:cond-point-output:target-overwritten-by-datum-of-same-rank',
-                                      'conditional simulation on a point Db: target %d at (%s,%s) coincides with no datum but every realisation equals the value %s of datum %d '
-                                      '(_updateData2ToTarget reads the target coordinates from dbin)' % (it, float(tx), float(ty), float(zs[it]), it),
-                                      {'case': sx_str(cA), 'target': it}); ctx.found_input = True
-                    elif len(vals) >= 2 and len(set(vals)) == 1:
-                        ctx.violation('ranks-identical:%s' % name, 'target %d (off the data): all realisations equal' % it, {'case': sx_str(cA)}); ctx.found_input = True
+                    if any(v is None for v in vals): continue
+                    for j in js:    # masked or undefined datum at this target: must not be honoured
+                        if zs[j] is not None and all(abs(v - zs[j]) <= tol for v in vals):
+                            ctx.violation('simtub:masked-datum-honoured:%s' % kind, 'every realisation at active target %d equals the value %r of the MASKED datum %d located there' % (
+                                it, float(zs[j]), j), {'case': sx_str(cA), 'target': it, 'datum': j}); ctx.found_input = True
+                    if sim == 2 and len(vals) >= 2 and len(set(vals)) == 1:
+                        hit = [j for j in range(len(zs)) if zs[j] is not None and vals[0] == zs[j]]
+                        if hit and hit[0] == it:
+                            ctx.violation('simtub:cond-point-output:target-overwritten-by-datum-of-same-rank',
+                                          'conditional simulation on a point Db: target %d at (%s,%s) coincides with no active datum but every realisation equals the value %s of datum %d' % (
+                                              it, float(loc[0]), float(loc[1]), float(vals[0]), it), {'case': sx_str(cA), 'target': it}); ctx.found_input = True
+                        else:
+                            ctx.violation('ranks-identical:%s' % name, 'target %d (off the active data): all realisations equal%s' % (it, ' to the value of datum %s' % hit if hit else ''),
+                                          {'case': sx_str(cA), 'target': it}); ctx.found_input = True
         if sim == 6:
+            ds = cfg.get('dsel') or [1] * len(cfg['data'])
             for j, d in enumerate(cfg['data']):
+                if not ds[j]: continue
                 lo, hi = undy(d[2]), undy(d[3])
                 for isimu, col in enumerate(a):
-                    v = col[j]; tol = Fraction(1, 2 ** 45) * (1 + abs(v))
+                    v = col[j]
+                    if v is None:
+                        ctx.violation('gibbs_sampler:undefined-at-active-sample', 'sample %d simulation %d undefined' % (j, isimu), {'case': sx_str(cA)}); ctx.found_input = True; continue
+                    tol = Fraction(1, 2 ** 45) * (1 + abs(v))
                     if (lo is not None and v < lo - tol) or (hi is not None and v > hi + tol):
                         ctx.violation('gibbs_sampler:value-outside-bounds', 'sample %d simulation %d: %r not in [%s, %s]' % (j, isimu, float(v), lo, hi), {'case': sx_str(cA), 'sample': j}); ctx.found_input = True
         if sim == 8:
-            nx = cfg['grid'][0]; bounds = [[undy(v) for v in b] for b in A[3]]
+            bounds = [[undy(v) for v in b] for b in A[3]]
             flag_gaus = cfg['extra'][3]
             combo = '%s:%s' % ('single-simulation' if cfg['nbsimu'] == 1 else 'several-simulations', 'two-grf' if cfg['ngrf'] == 2 else 'one-grf')
-            for (x, y), d in zip(cfg['pts'], cfg['data']):
-                f = int(undy(d[2])); node = y * nx + x
+            for it, loc in enumerate(tloc):
+                if not tact[it]: continue
+                on = [j for j in where.get(loc, []) if act[j]]
+                if not on: continue
+                f = int(undy(cfg['data'][on[0]][2])); node = it
                 if not flag_gaus:
                     for isimu, col in enumerate(a):
                         if col[node] != f:
-                            ctx.violation('simpgs:cond:datum-not-honoured:' + combo, 'conditional PGS (%s) simulation %d: facies %s at the node of a datum of facies %d' % (combo, isimu, float(col[node]), f),
-                                          {'case': sx_str(cA), 'node': [x, y]}); ctx.found_input = True
+                            ctx.violation('simpgs:cond:datum-not-honoured:' + combo + masked, 'conditional PGS (%s) simulation %d: facies %s at the active node of active datum %d of facies %d' % (
+                                combo, isimu, None if col[node] is None else float(col[node]), on[0], f), {'case': sx_str(cA), 'node': node}); ctx.found_input = True; break
                 else:
-                    # columns: GRF1 simulations then GRF2 simulations (rank = isimu + nbsimu*igrf)
                     nb = cfg['nbsimu']; b = bounds[f - 1]
                     for igrf in range(len(a) // nb):
                         for isimu in range(nb):
                             v = a[isimu + nb * igrf][node]; lo, hi = b[2 * igrf], b[2 * igrf + 1]; tol = Fraction(1, 10 ** 8)
-                            if v < lo - tol or v > hi + tol:
-                                ctx.violation('simpgs:cond:datum-not-honoured:' + combo, 'conditional PGS (%s): GRF %d simulation %d at the node of a datum of facies %d: %r not in [%r, %r]' % (
-                                    combo, igrf + 1, isimu, f, float(v), float(lo), float(hi)), {'case': sx_str(cA), 'node': [x, y]}); ctx.found_input = True
+                            if v is None or v < lo - tol or v > hi + tol:
+                                ctx.violation('simpgs:cond:datum-not-honoured:' + combo + masked, 'conditional PGS (%s): GRF %d simulation %d at the node of active datum %d of facies %d: %r not in [%r, %r]' % (
+                                    combo, igrf + 1, isimu, on[0], f, None if v is None else float(v), float(lo), float(hi)), {'case': sx_str(cA), 'node': node}); ctx.found_input = True
+        # --- masked / undefined data physically removed: same results at the active targets
+        if cfg.get('masked') and (k, 'D') in res:
+            cD, D = res[(k, 'D')]
+            if D is None or D[0] != 0:
+                ctx.violation('sim-error:%s:after-removal' % name, '%s fails once the masked data are physically removed' % name, {'case': sx_str(cD)}); ctx.found_input = True
+            else:
+                dd = cols(D)
+                if sim == 6: amap = [j for j, f in enumerate(cfg['dsel']) if f]
+                elif sim == 2: amap = [j for j, f in enumerate(cfg.get('tsel') or [1] * len(cfg['tg'])) if f]
+                else: amap = [j for j, f in enumerate(tact) if f]
+                dmap = list(range(len(amap))) if sim in (2, 6) else amap
+                worst = Fraction(0); nbit = 0; ntot = 0
+                for ca, cd in zip(a, dd):
+                    for ja, jd in zip(amap, dmap):
+                        va, vd = ca[ja], cd[jd]; ntot += 1
+                        if va == vd: nbit += 1; continue
+                        if va is None or vd is None: worst = Fraction(10 ** 9); continue
+                        worst = max(worst, abs(va - vd) / (1 + abs(vd)))
+                ctx.dist('removal_bit_identical', nbit); ctx.dist('removal_compared', ntot)
+                if len(a) != len(dd) or nbit != ntot:     # observed and required: bit-identical (same active samples in the same order => same arithmetic)
+                    ctx.violation('masked-data-influence:%s' % name, '%s: results at the active targets differ (relative %.3g) from those obtained with the same seed after physically removing '
+                                  'the masked / undefined data' % (name, float(worst)), {'case_with_selection': sx_str(cA), 'case_removed': sx_str(cD)}); ctx.found_input = True
 
 def check_degenerate(ctx, exe, runner):
     """regression for the repaired step (state 0 replaced by 1): seeds whose first raw state is 0 - multiples of the modulus
@@ -638,7 +793,7 @@ def run(ctx):
     runner = build_runner(ctx); exe = build_harness(ctx, 'C13')
     if runner is None or exe is None:
         print('ERROR: model runner or harness does not build'); sys.exit(3)
-    for name, fn in [('corpus', check_corpus), ('lcg', check_lcg), ('degenerate', check_degenerate), ('bounded', check_bounded), ('cond', check_cond),
+    for name, fn in [('corpus', check_corpus), ('lcg', check_lcg), ('degenerate', check_degenerate), ('bounded', check_bounded), ('cond', check_cond), ('copy', check_copy),
                      ('rule', check_rule), ('sims', check_sims)]:
         t = time.time(); fn(ctx, exe, runner); ctx.log('%s: %.1fs, %d evaluations so far' % (name, time.time() - t, ctx.cov['evaluations']))
     ctx.cov['rule'] = ('cases: (seed, n) LCG runs compared state by state (checksum) with lcg_next; (seed, bounds) bounded / Gibbs draws with the uniforms of the model LCG; '
